@@ -459,6 +459,8 @@ def correspondence(ctx):
     n_pow = 0
     by_pair = {}
     for (st, mo, n, v, e) in fixed_substream():
+        if ctx.quick and n in (3, 4, 6):      # the oracle runs all of it in both tiers; the correspondence half of it when quick
+            continue
         by_pair.setdefault((v, e), []).append((st, mo, n))
     for (v, e), cfgs in by_pair.items():
         add(v, e, cfgs, "powers-of-ten")
